@@ -431,6 +431,15 @@ inductive Out where
   | bad                -- the op names a container that does not exist
 deriving DecidableEq, Repr
 
+def Out.isFine : Out → Bool
+  | .err _ => false
+  | .bad => false
+  | _ => true
+
+def Out.isObj : Out → Bool
+  | .obj _ => true
+  | _ => false
+
 def outUnit : Except Err Unit → Out
   | .ok () => .ok
   | .error e => .err e
